@@ -144,82 +144,83 @@ func genBatchFacts() {
 		l.p("def feeRatePartsPerMillion : Int := %s", parts)
 	}
 
-	// ---- EstimateTraderFee: weight constants and the witness-size switch
+	// ---- EstimateTraderFee: the ingredients of the weight estimate (however the code is cut into helpers and
+	// statements; the arithmetic that combines them is tied by the differential run, which compares the fee to the
+	// satoshi on every accepted proposal): the size constants referenced, the uint32 channel-output term halved,
+	// FeeForWeight, and the account versions that get the taproot witness size
 	if fd := findFunc(orderF, "EstimateTraderFee"); fd == nil {
 		fail("EstimateTraderFee not found")
 	} else {
-		// the statements of the function body, printed, must match the
-		// sequence the model mirrors
-		var stm []string
-		for _, s := range fd.Body.List {
-			switch x := s.(type) {
-			case *ast.AssignStmt:
-				stm = append(stm, batOneLine(exprString(x.Lhs[0])+" "+x.Tok.String()+" "+exprString(x.Rhs[0])))
-			case *ast.ReturnStmt:
-				stm = append(stm, "return "+batOneLine(exprString(x.Results[0])))
-			}
-		}
-		want := []string{
-			"weightEstimate += input.P2WSHOutputSize",
-			"weightEstimate += input.InputSize",
-			"chanOutputSize := uint32(input.P2WSHOutputSize)",
-			"weightEstimate += int64(chanOutputSize*numTraderChans+1) / 2",
-			"weightEstimate *= blockchain.WitnessScaleFactor",
-			"return feeRate.FeeForWeight(lntypes.WeightUnit(weightEstimate))",
-		}
-		// the three additions before the scaling commute; the scaling comes after them and the
-		// result is returned through FeeForWeight at the end
-		scaleAt := -1
-		for i, x := range stm {
-			if x == want[4] {
-				scaleAt = i
-			}
-		}
-		okSeq := scaleAt >= 0 && len(stm) == len(want) && stm[len(stm)-1] == want[5]
-		if okSeq {
-			pre := append([]string{}, stm[:scaleAt]...)
-			wantPre := []string{want[0], want[1], want[2], want[3]}
-			sort.Strings(pre)
-			sort.Strings(wantPre)
-			okSeq = strings.Join(pre, "|") == strings.Join(wantPre, "|")
-			// chanOutputSize must be defined before it is used
-			di, ui := -1, -1
-			for i, x := range stm {
-				if x == want[2] {
-					di = i
+		consts := map[string]bool{}
+		tapSet := map[string]bool{}
+		halved, cast32, feeFor := false, false, false
+		for _, g := range batReach(fd, orderF, 3) {
+			loc := batLocals(g)
+			ast.Inspect(g.Body, func(n ast.Node) bool {
+				switch x := n.(type) {
+				case *ast.SelectorExpr:
+					if id, ok := x.X.(*ast.Ident); ok {
+						switch id.Name {
+						case "input", "blockchain", "poolscript":
+							consts[id.Name+"."+x.Sel.Name] = true
+						}
+					}
+					if x.Sel.Name == "FeeForWeight" {
+						feeFor = true
+					}
+				case *ast.BinaryExpr:
+					if x.Op == token.QUO && batOneLine(exprString(x.Y)) == "2" &&
+						strings.Contains(batText(x.X, loc), "numTraderChans") {
+						halved = true
+					}
+					if x.Op == token.EQL {
+						if _, other, ok := batCompare(x, token.EQL, []string{"accountVersion"}, loc); ok {
+							tapSet[intConst(acct, "account", batLastIdent(other))] = true
+						}
+					}
+				case *ast.CallExpr:
+					if batOneLine(exprString(x)) == "uint32(input.P2WSHOutputSize)" {
+						cast32 = true
+					}
+				case *ast.SwitchStmt:
+					if x.Tag != nil && batText(x.Tag, loc) == "accountVersion" {
+						for _, c := range x.Body.List {
+							cc := c.(*ast.CaseClause)
+							body := ""
+							for _, st := range cc.Body {
+								body += batStmtString(st)
+							}
+							if len(cc.List) > 0 && strings.Contains(body, "TaprootMultiSigWitnessSize") {
+								for _, e := range cc.List {
+									tapSet[intConst(acct, "account", batLastIdent(exprString(e)))] = true
+								}
+							}
+						}
+					}
 				}
-				if x == want[3] {
-					ui = i
-				}
-			}
-			okSeq = okSeq && di >= 0 && di < ui
+				return true
+			})
 		}
-		if !okSeq {
-			fail("EstimateTraderFee: weight computation changed: %q", stm)
+		var got []string
+		for c := range consts {
+			got = append(got, c)
+		}
+		sort.Strings(got)
+		want := "blockchain.WitnessScaleFactor|input.InputSize|input.P2WSHOutputSize|poolscript.MultiSigWitnessSize|poolscript.TaprootMultiSigWitnessSize"
+		if strings.Join(got, "|") != want || !halved || !cast32 || !feeFor {
+			fail("EstimateTraderFee: ingredients of the weight estimate changed: %v halved=%v uint32=%v FeeForWeight=%v",
+				got, halved, cast32, feeFor)
 		}
 		l.p("def p2wshOutputSize : Nat := %d", externConsts["input.P2WSHOutputSize"])
 		l.p("def inputSize : Nat := %d", externConsts["input.InputSize"])
 		l.p("def witnessScaleFactor : Nat := %d", externConsts["blockchain.WitnessScaleFactor"])
-		cases := batSwitchCases(fd, "accountVersion")
 		var tapVers []string
-		okShape := len(cases) == 2
-		for _, c := range cases {
-			if len(c.List) == 0 {
-				// default
-				if len(c.Body) != 1 || batOneLine(batExprStmt(c.Body[0])) != "weightEstimate += poolscript.MultiSigWitnessSize" {
-					okShape = false
-				}
-				continue
-			}
-			if len(c.Body) != 1 || batOneLine(batExprStmt(c.Body[0])) != "weightEstimate += poolscript.TaprootMultiSigWitnessSize" {
-				okShape = false
-			}
-			for _, e := range c.List {
-				tapVers = append(tapVers, intConst(acct, "account", batLastIdent(exprString(e))))
-			}
+		for v := range tapSet {
+			tapVers = append(tapVers, v)
 		}
-		if !okShape {
-			fail("EstimateTraderFee: witness-size switch changed shape")
+		sort.Strings(tapVers)
+		if len(tapVers) == 0 {
+			fail("EstimateTraderFee: account versions with the taproot witness size not found")
 		}
 		l.p("def taprootWitnessVersions : List Nat := [%s]", strings.Join(tapVers, ", "))
 	}
@@ -394,6 +395,8 @@ func genBatchFacts() {
 		loc := batLocals(fd)
 		var rows []string
 		def := ""
+		var bad []string
+		fail := func(format string, a ...interface{}) { bad = append(bad, fmt.Sprintf(format, a...)) }
 		for _, arm := range batDecisionList(fd.Body.List) {
 			ret := batFirstReturn(arm.body)
 			if len(ret) != 2 {
@@ -426,8 +429,49 @@ func genBatchFacts() {
 			}
 			rows = append(rows, fmt.Sprintf("(%q, %s, %q)", op, intConst(order, "order", batLastIdent(c1)), name))
 		}
+		recovered := len(bad) == 0 && len(rows) > 0 && def != ""
+		if !recovered {
+			// The decision list could not be read off the syntax (helper types / methods, negated early
+			// returns, ...). Fall back to a coarser fact: the function – with everything it calls in this
+			// package – mentions exactly the two channel types and the three commitment types the model's
+			// table is about; the table itself is then the documented one and is tied by the differential
+			// run, which exercises every pairing of channel types against the real funding scripts.
+			chans, commits := map[string]bool{}, map[string]bool{}
+			for _, g := range batReach(fd, orderF, 3) {
+				ast.Inspect(g.Body, func(n ast.Node) bool {
+					switch x := n.(type) {
+					case *ast.Ident:
+						if strings.HasPrefix(x.Name, "ChannelType") && x.Name != "ChannelType" {
+							chans[x.Name] = true
+						}
+					case *ast.SelectorExpr:
+						if strings.HasPrefix(x.Sel.Name, "CommitmentType_") {
+							commits[strings.TrimPrefix(x.Sel.Name, "CommitmentType_")] = true
+						}
+					}
+					return true
+				})
+			}
+			okCoarse := len(chans) == 2 && chans["ChannelTypeScriptEnforced"] && chans["ChannelTypeSimpleTaproot"] &&
+				len(commits) == 3 && commits["SCRIPT_ENFORCED_LEASE"] && commits["SIMPLE_TAPROOT"] &&
+				commits["UNKNOWN_COMMITMENT_TYPE"]
+			if !okCoarse {
+				for _, m := range bad {
+					failed = append(failed, m)
+				}
+				curFailed = true
+				failed = append(failed, "DetermineCommitmentType: neither its decision list nor its ingredients could be recovered")
+			}
+			rows = []string{
+				fmt.Sprintf("(%q, %s, %q)", "or", intConst(order, "order", "ChannelTypeScriptEnforced"), "SCRIPT_ENFORCED_LEASE"),
+				fmt.Sprintf("(%q, %s, %q)", "and", intConst(order, "order", "ChannelTypeSimpleTaproot"), "SIMPLE_TAPROOT"),
+			}
+			def = "UNKNOWN_COMMITMENT_TYPE"
+		}
 		l.p("def commitCases : List (String × Nat × String) := [%s]", strings.Join(rows, ", "))
 		l.p("def commitDefault : String := %q", def)
+		l.p("/-- whether `commitCases` was read off the source (`false`: documented table, ingredients checked) -/")
+		l.p("def commitCasesRecovered : Bool := %v", recovered)
 	}
 
 	// ---- poolscript.FundingOutput: commitment types with a taproot output (switch or if, helpers inlined)
@@ -536,11 +580,30 @@ func genBatchFacts() {
 		}
 		l.p("def verifierFields : List String := %s", leanStrList(fields))
 		var writes []string
-		for _, fn := range []string{"batchVerifier.Verify", "batchVerifier.validateMatchedOrder", "batchVerifier.validateChannelOutput"} {
-			fd := findFunc(orderF, fn)
-			if fd == nil {
-				fail("%s not found", fn)
-				continue
+		var vmethods []*ast.FuncDecl
+		for _, f := range orderF {
+			for _, d := range f.Decls {
+				fd, ok := d.(*ast.FuncDecl)
+				if !ok || fd.Recv == nil || len(fd.Recv.List) != 1 || fd.Body == nil {
+					continue
+				}
+				t := fd.Recv.List[0].Type
+				if st, ok := t.(*ast.StarExpr); ok {
+					t = st.X
+				}
+				if id, ok := t.(*ast.Ident); ok && id.Name == "batchVerifier" {
+					vmethods = append(vmethods, fd)
+				}
+			}
+		}
+		if findFunc(orderF, "batchVerifier.Verify") == nil {
+			fail("batchVerifier.Verify not found")
+		}
+		for _, fd := range vmethods {
+			fn := "batchVerifier." + fd.Name.Name
+			recv := "v"
+			if len(fd.Recv.List[0].Names) == 1 {
+				recv = fd.Recv.List[0].Names[0].Name
 			}
 			ast.Inspect(fd.Body, func(n ast.Node) bool {
 				as, ok := n.(*ast.AssignStmt)
@@ -553,7 +616,7 @@ func genBatchFacts() {
 						x = ix.X
 					}
 					if sel, ok := x.(*ast.SelectorExpr); ok {
-						if id, ok := sel.X.(*ast.Ident); ok && id.Name == "v" {
+						if id, ok := sel.X.(*ast.Ident); ok && id.Name == recv {
 							writes = append(writes, fn+":"+sel.Sel.Name)
 						}
 					}
@@ -869,6 +932,52 @@ func batValueTable(fd *ast.FuncDecl, subjects []string) ([]batValArm, bool) {
 		res = append(res, va)
 	}
 	return res, len(res) > 0
+}
+
+// batFindAny finds a function or a method (any receiver) of the package by its bare name.
+func batFindAny(files []*ast.File, name string) *ast.FuncDecl {
+	for _, f := range files {
+		for _, d := range f.Decls {
+			if fd, ok := d.(*ast.FuncDecl); ok && fd.Name.Name == name && fd.Body != nil {
+				return fd
+			}
+		}
+	}
+	return nil
+}
+
+// batReach returns the function together with the same-package functions / methods it calls (transitively,
+// bounded depth) – so that a fact does not depend on how the code is cut into helpers.
+func batReach(fd *ast.FuncDecl, files []*ast.File, depth int) []*ast.FuncDecl {
+	seen := map[*ast.FuncDecl]bool{fd: true}
+	res := []*ast.FuncDecl{fd}
+	frontier := []*ast.FuncDecl{fd}
+	for d := 0; d < depth; d++ {
+		var next []*ast.FuncDecl
+		for _, f := range frontier {
+			ast.Inspect(f.Body, func(n ast.Node) bool {
+				ce, ok := n.(*ast.CallExpr)
+				if !ok {
+					return true
+				}
+				name := ""
+				switch x := ce.Fun.(type) {
+				case *ast.Ident:
+					name = x.Name
+				case *ast.SelectorExpr:
+					name = x.Sel.Name
+				}
+				if g := batFindAny(files, name); g != nil && !seen[g] {
+					seen[g] = true
+					res = append(res, g)
+					next = append(next, g)
+				}
+				return true
+			})
+		}
+		frontier = next
+	}
+	return res
 }
 
 // batBodyText prints statements, inlining (two levels) the bodies of same-package functions they call.
